@@ -88,6 +88,11 @@ func isUsed(field string, node Node) bool {
 						used = true
 					}
 				}
+			case NodeTypeUnnest:
+				// The unnested field determines the number of output records, even if nobody reads its value.
+				if node.Unnest.Field == field {
+					used = true
+				}
 			default:
 			}
 
